@@ -216,7 +216,7 @@ def r_all(ctx):
             continue
         # burn-in skip in the merged form: `i < n_burnin` negated / `i >= n_burnin`
         b = N.b(t, neg=negated, integer=True)
-        if b == N.b(parse_expr(f"{iv} >= n_burnin"), integer=True):
+        if b == N.b(parse_expr(f"{iv} >= n_burnin + {start}"), integer=True):        # the loop variable is (0-based index + start)
             burn_skip_ok = True
             continue
         raise AnalysisError(f"sampling.sample: recording is guarded by an unrecognised condition `{U(t)}`")
